@@ -116,7 +116,7 @@ impl Parent {
         ensures final(self).order@ == old(self).order@, final(self).ident == old(self).ident, final(self).registered@ == old(self).registered@,
                 final(self).last_desc@ == old(self).last_desc@,
                 r is Err ==> final(self).children@ == old(self).children@,
-                r is Err ==> (r->Err_0 is InvalidHierarchy || r->Err_0 is InvalidType),   // proved of the three implementations below
+                r is Err ==> !(r->Err_0 is OufOfIndex),   // proved of the three implementations below: OufOfIndex is the trait default's own answer (the reference is not a child)
                 r is Ok <==> old(self).accepts(value),
                 r is Ok ==> r->Ok_0 == value && final(self).children@.contains(value.ident),
                 r is Ok ==> final(self).children@ == (match id {
@@ -230,7 +230,7 @@ pub mod prim {
     pub fn attribute_value_try_from(value: ItemRef) -> (r: error::Result<XmlAttributeValue>)
         ensures r is Ok ==> r->Ok_0.ident == value.ident,
                 r is Ok <==> (value.item is Text || value.item is CharReference || value.item is Unexpanded),
-                r is Err ==> r->Err_0 is InvalidType,
+                r is Err ==> !(r->Err_0 is OufOfIndex),   // its one error is InvalidType
     { unimplemented!() }
     pub open spec fn value_ids(v: Seq<XmlAttributeValue>) -> Seq<usize> { v.map_values(|x: XmlAttributeValue| x.ident) }
 
@@ -566,7 +566,7 @@ def build():
                       requires=[('reference_child_exists_and_is_not_the_value', f'id is Some ==> id->Some_0 != value.ident && {idsf}(old(self).{lst}@).contains(id->Some_0)')],
                       ensures=[('C13+C12:refused_call_changes_nothing', f'r is Err ==> final(self).{lst}@ == old(self).{lst}@ && final(self).parent_of@ == old(self).parent_of@'),
                                ('C13+C12:accepted_child_is_listed_once_under_this_parent', f'r is Ok ==> r->Ok_0 == value && {idsf}(final(self).{lst}@).contains(value.ident) && final(self).parent_of@[value.ident] == Some(old(self).ident)'),
-                               ('C13:a_refusal_names_the_hierarchy_or_the_type', 'r is Err ==> (r->Err_0 is InvalidHierarchy || r->Err_0 is InvalidType)')],
+                               ('C13:a_refusal_is_never_out_of_index', 'r is Err ==> !(r->Err_0 is OufOfIndex)')],
                       inject=[(r'let index = self\.child_index\(id\)\.unwrap\(\);', f'proof {{ {lem}(old(self).{lst}@, value.ident, Some(id)); }}', 'before'),
                               (rf'self\.{lst}\.insert\(index, ', f'proof {{ assert({idsf}(self.{lst}@)[index as int] == value.ident); }}'),
                               (rf'self\.{lst}\.push\(', f'proof {{ assert({idsf}(self.{lst}@)[self.{lst}@.len() - 1] == value.ident); }}')])
@@ -591,7 +591,7 @@ def build():
                   ('the_handle_of_an_element_item_is_its_id', 'value.item is Element ==> value.item->Element_0 == value.ident')],
         ensures=[('C13+C12:refused_call_changes_nothing', 'r is Err ==> final(self).children@ == old(self).children@ && final(self).parent_of@ == old(self).parent_of@'),
                  ('C13+C12:accepted_child_is_listed_once_under_this_parent', 'r is Ok ==> r->Ok_0 == value && ids(final(self).children@).contains(value.ident) && final(self).parent_of@[value.ident] == Some(old(self).ident)'),
-                 ('C13:a_refusal_names_the_hierarchy_or_the_type', 'r is Err ==> (r->Err_0 is InvalidHierarchy || r->Err_0 is InvalidType)'),
+                 ('C13:a_refusal_is_never_out_of_index', 'r is Err ==> !(r->Err_0 is OufOfIndex)'),
                  ('C12:accepted_child_is_listed_exactly_once', 'r is Ok ==> (forall|i: int, j: int| 0 <= i < final(self).children@.len() && 0 <= j < final(self).children@.len()'
                   ' && #[trigger] ids(final(self).children@)[i] == value.ident && #[trigger] ids(final(self).children@)[j] == value.ident ==> i == j)'),
                  ('C12:at_most_one_document_element_and_one_document_type',
